@@ -457,9 +457,13 @@ def d4_samples(ctx):
     cm = ctx.repo.mod('correlators')
     n += samplerule.check(ctx, 'C05-D4', cm)
     ctx.floor('sample reconstructions (delta + replica mean)', n, 5)
+    # the charge of a configuration in qtop_projection is rebuilt from fluctuation + mean of its replica as well
+    samplerule.check(ctx, 'C05-D4', ctx.repo.mod('input.openQCD'), ('qtop_projection',))
 
 
 def run(ctx):
+    from . import C04 as _C04
+    ctx.guarded('C05-D1', 'obs.py:_merge_idx', _C04.merge_idx_rules, ctx, ctx.repo.mod('obs'), 'C05-D1', (('_merge_idx', 'union'),))
     ctx.rule('C05-D1', 'pairing by configuration number (index-space tags, dominating equality guards)')
     ctx.rule('C05-D2', 'misaligned requests raise')
     ctx.rule('C05-D3', 'reweighted flag set and inherited')
